@@ -37,7 +37,7 @@ import (
 )
 
 type OCase struct {
-	Mode   int   `json:"mode"`   // 0 decoder session, 1 encoder session, 2 fallback unmarshal, 3 fallback marshal, 4 options visible to user code in tagged fields
+	Mode   int   `json:"mode"`   // 0 decoder session, 1 encoder session, 2 fallback unmarshal, 3 fallback marshal, 4 options visible to user code in tagged fields, 5 user code that leaves a container of its own open
 	Opens  []int `json:"opens"`  // containers opened by the caller, outermost first: 0 array, 1 object (the innermost is always an array)
 	N      int   `json:"n"`      // elements of the innermost array
 	Idx    int   `json:"idx"`    // element on which the user code misbehaves
@@ -52,7 +52,7 @@ type OCase struct {
 
 func genOCase(t *rapid.T) OCase {
 	c := OCase{
-		Mode:   rapid.IntRange(0, 4).Draw(t, "mode"),
+		Mode:   rapid.IntRange(0, 5).Draw(t, "mode"),
 		N:      rapid.IntRange(1, 5).Draw(t, "n"),
 		Behav:  rapid.SampledFrom([]int{0, 1, 1, 1, 2}).Draw(t, "behav"),
 		Method: rapid.Bool().Draw(t, "method"),
@@ -144,6 +144,8 @@ func RunOwned(c OCase) error {
 		err = runFallbackUnmarshal(c)
 	case 3:
 		err = runFallbackMarshal(c)
+	case 5:
+		err = runOpenLeft(c)
 	default:
 		err = runVisibleOptions(c)
 	}
@@ -725,4 +727,115 @@ func runVisibleOptions(c OCase) error {
 		}
 	}
 	return nil
+}
+
+
+// ---- (d) user code that opens a container and leaves it open ------------------
+
+// openElem reads its value whole, or (k >= 0) the opening token of its array and k elements.
+type openElem struct{ k *int }
+
+func openLeft(dec *jsontext.Decoder, k int) error {
+	if k < 0 {
+		_, err := dec.ReadValue()
+		return err
+	}
+	if _, err := dec.ReadToken(); err != nil { // '['
+		return err
+	}
+	for i := 0; i < k; i++ {
+		if _, err := dec.ReadValue(); err != nil {
+			return err
+		}
+	}
+	return nil // the array is still open
+}
+
+func (e *openElem) UnmarshalJSONFrom(dec *jsontext.Decoder) error { return openLeft(dec, *e.k) }
+
+// runOpenLeft: the caller opens an array of arrays on its own Decoder and hands every element to
+// UnmarshalDecode. On one element the user code reads the opening bracket and k elements and returns nil
+// with its array still open - in particular k = index+1, which makes the number of values read inside equal
+// the number the caller's array would hold after one more value. "A method or function that reads anything
+// other than exactly one JSON value yields an error": the call must fail.
+func runOpenLeft(c OCase) error {
+	k := 0
+	if len(c.Keys) > 0 {
+		k = c.Keys[0]
+	}
+	if len(c.Pre) > 0 {
+		k = c.Idx + 1 // the count that matches the caller's own level
+	}
+	var sb strings.Builder
+	for _, o := range c.Opens {
+		if o == 1 {
+			sb.WriteString(`{"k":`)
+		} else {
+			sb.WriteString(`[`)
+		}
+	}
+	sb.WriteString("[")
+	for i := 0; i < c.N; i++ {
+		if i > 0 {
+			sb.WriteString(",")
+		}
+		sb.WriteString("[1,1,1,1,1,1,1]")
+	}
+	sb.WriteString("]")
+	for i := len(c.Opens) - 1; i >= 0; i-- {
+		sb.WriteString(map[int]string{0: "]", 1: "}"}[c.Opens[i]])
+	}
+	doc := sb.String()
+	kNow := -1
+	opts := []json.Options{json.WithUnmarshalers(json.UnmarshalFromFunc(func(dec *jsontext.Decoder, _ *uint16) error { return openLeft(dec, kNow) }))}
+	var dec *jsontext.Decoder
+	switch c.Reader {
+	case 1:
+		dec = jsontext.NewDecoder(bytes.NewBufferString(doc))
+	case 2:
+		dec = jsontext.NewDecoder(oneByte{strings.NewReader(doc)})
+	default:
+		dec = jsontext.NewDecoder(strings.NewReader(doc))
+	}
+	var verdict error
+	p := rt.Guard(func() {
+		for range c.Opens {
+			if _, err := dec.ReadToken(); err != nil {
+				verdict = fmt.Errorf("caller cannot open its containers: %v", err)
+				return
+			}
+			if dec.PeekKind() == '"' {
+				dec.ReadToken()
+			}
+		}
+		dec.ReadToken() // the array of arrays
+		for i := 0; i < c.N; i++ {
+			kNow = -1
+			if i == c.Idx {
+				kNow = k
+			}
+			var err error
+			if c.Method {
+				err = json.UnmarshalDecode(dec, &openElem{k: &kNow})
+			} else {
+				var v uint16
+				err = json.UnmarshalDecode(dec, &v, opts...)
+			}
+			if i == c.Idx {
+				if err == nil {
+					verdict = fmt.Errorf("UnmarshalDecode returned nil although the user code (method=%v) read '[' and %d elements of element %d and left that array open (depth now %d, pointer %q)\ntext %s",
+						c.Method, k, i, dec.StackDepth(), dec.StackPointer(), doc)
+				}
+				return
+			}
+			if err != nil {
+				verdict = fmt.Errorf("UnmarshalDecode of element %d (read whole by the user code) failed: %v\ntext %s", i, err, doc)
+				return
+			}
+		}
+	})
+	if p != nil {
+		return fmt.Errorf("session panicked: %v\ntext %s", p, doc)
+	}
+	return verdict
 }
